@@ -26,6 +26,17 @@ Cat == {
   Ok(<< <<4, 1>>, <<5, 5>> >>, <<>>),                                          \* bad cipher among the legacy keys
   Ok(<<>>, << Svc(<<2, 1>>, <<U(1), T(3)>>), Svc(<<4>>, <<T(2)>>) >>)
 }
+\* configurations that load (hand-over scenarios, C11)
+CatOk == {
+  Ok(<<>>, << Svc(<<1, 2>>, <<T(1), U(1)>>) >>),
+  Ok(<<>>, << Svc(<<1, 4, 3>>, <<T(1), U(1), T(2)>>), Svc(<<2>>, <<T(3), U(3)>>) >>),
+  Ok(<<>>, << Svc(<<3>>, <<T(1), U(2)>>) >>),
+  Ok(<<>>, << Svc(<<3, 1>>, <<T(1), U(1)>>), Svc(<<2, 6>>, <<T(2), U(2)>>) >>),
+  Ok(<< <<4, 1>>, <<4, 2>>, <<5, 3>> >>, <<>>),
+  Ok(<< <<4, 6>>, <<4, 2>> >>, << Svc(<<1>>, <<T(1), U(1)>>) >>),
+  Ok(<<>>, << Svc(<<2, 1>>, <<U(1), T(3)>>), Svc(<<4>>, <<T(2)>>) >>)
+}
+NoListeners == {}
 \* a small catalogue for the exhaustive quick run
 CatSmall == {
   Ok(<<>>, << Svc(<<1, 2>>, <<T(1), U(1)>>) >>),
